@@ -443,8 +443,11 @@ class PolygonTensor(PolytopeTensor):
             if isinstance(other, Point) and i.ndim == 1:
                 other = Point(np.delete(other.array, i), copy=False)
             else:
+                # a single point is tested against every polygon of a collection
+                other_shape = np.broadcast_shapes(other.shape[:-1], i.shape[:-1]) + other.shape[-1:]
+                other = np.broadcast_to(other.array, other_shape)
                 s = other.shape[:-1] + (1, other.shape[-1])
-                other = np.delete(other.array, np.ravel_multi_index((*tuple(np.indices(s[:-1])), i), s))
+                other = np.delete(other, np.ravel_multi_index((*tuple(np.indices(s[:-1])), i), s))
                 other = PointCollection(other.reshape(s[:-2] + (-1,)), copy=False)
 
             # TODO: only test coplanar points
